@@ -26,6 +26,8 @@ REGISTRY = {
     "S01": ("checks.extra_checks", "s01"),
     "S02": ("checks.extra_checks", "s02"),
     "S03": ("checks.extra_checks", "s03"),
+    "S04": ("checks.extra_checks", "s04"),
+    "S05": ("checks.extra_checks", "s05"),
     "C04": ("checks.arith_checks", "c04"),
     "C05": ("checks.arith_checks", "c05"),
     "C12": ("checks.controlb_checks", "c12"),
